@@ -84,12 +84,9 @@ func genVec(t *rapid.T, alts []Alt) Vec {
 // GenDirect draws a structure, the registrations, the authorizer and 1-4 outcome vectors.
 func GenDirect(t *rapid.T) DirectCase {
 	c := DirectCase{Alts: genAlts(t, 4)}
-	c.Unreg = genSubset(t, "unregistered", 7)
+	c.Unreg = genSubset(t, "unregistered", 10)
 	c.Authz = rapid.SampledFrom(authzKinds).Draw(t, "authorizer")
-	n := rapid.IntRange(1, 4).Draw(t, "vectors")
-	for i := 0; i < n; i++ {
-		c.Vecs = append(c.Vecs, genVec(t, c.Alts))
-	}
+	c.Vecs = rapid.SliceOfN(rapid.Custom(func(t *rapid.T) Vec { return genVec(t, c.Alts) }), 1, 4).Draw(t, "vectors")
 	return c
 }
 
@@ -166,10 +163,10 @@ func EnumerateDirect(yield func(DirectCase) bool) {
 
 var methods = []string{"post", "post", "put", "patch", "delete"}
 
-// GenStack draws an API description and 6 requests against it.
+// GenStack draws an API description and 1-10 requests against it.
 func GenStack(t *rapid.T) StackCase {
 	c := StackCase{Alts: genAlts(t, 4)}
-	c.Unreg = genSubset(t, "unregistered", 8)
+	c.Unreg = genSubset(t, "unregistered", 10)
 	c.Undef = genSubset(t, "undefined", 14)
 	c.Decl = rapid.SampledFrom([]string{"global", "op", "op", "override"}).Draw(t, "declared")
 	if c.Decl == "override" {
@@ -178,8 +175,7 @@ func GenStack(t *rapid.T) StackCase {
 	c.Authz = rapid.SampledFrom(authzKinds).Draw(t, "authorizer")
 	c.Method = rapid.SampledFrom(methods).Draw(t, "method")
 	c.HandlerErr = rapid.Bool().Draw(t, "handler-observes-request")
-	n := rapid.IntRange(4, 8).Draw(t, "requests")
-	for i := 0; i < n; i++ {
+	c.Reqs = rapid.SliceOfN(rapid.Custom(func(t *rapid.T) Req {
 		q := Req{Vec: genVec(t, c.Alts)}
 		if rapid.IntRange(0, 1).Draw(t, "damaged") == 1 {
 			q.MissingQ = rapid.IntRange(0, 2).Draw(t, "missing-q") == 0
@@ -187,8 +183,8 @@ func GenStack(t *rapid.T) StackCase {
 			q.BadAccept = rapid.IntRange(0, 2).Draw(t, "bad-accept") == 0
 			q.BadBody = rapid.IntRange(0, 2).Draw(t, "bad-body") == 0
 		}
-		c.Reqs = append(c.Reqs, q)
-	}
+		return q
+	}), 1, 10).Draw(t, "requests")
 	return c
 }
 
@@ -219,9 +215,12 @@ func ClassifyStack(c StackCase) (bool, []string) {
 				labels = append(labels, "refused+damaged")
 			}
 		}
-		for name, on := range map[string]bool{"damage:missing-query": q.MissingQ, "damage:content-type": q.BadCT, "damage:accept": q.BadAccept, "damage:body": q.BadBody} {
-			if on {
-				labels = append(labels, name)
+		for _, d := range []struct {
+			name string
+			on   bool
+		}{{"damage:missing-query", q.MissingQ}, {"damage:content-type", q.BadCT}, {"damage:accept", q.BadAccept}, {"damage:body", q.BadBody}} {
+			if d.on {
+				labels = append(labels, d.name)
 			}
 		}
 	}
@@ -236,12 +235,12 @@ func Props() []kit.Runner {
 	return []kit.Runner{
 		kit.Prop[DirectCase]{ID: "C02", Name: "direct",
 			Rule:  "[exported RouteAuthenticator(s) and Context.Authorize with explicit scheme orders, every permutation inside every alternative] " + ruleText,
-			Quick: 12000, Thorough: 60000, Gen: GenDirect, Check: CheckDirect, Classify: ClassifyDirect, Enumerate: EnumerateDirect},
+			Quick: 10000, Thorough: 60000, Gen: GenDirect, Check: CheckDirect, Classify: ClassifyDirect, Enumerate: EnumerateDirect},
 		kit.Prop[StackCase]{ID: "C02", Name: "stack",
-			Rule:  "[spec -> untyped API -> Context.APIHandler, 4-8 requests per API with independent damage: missing required parameter, bad Content-Type, bad Accept, unparsable body] " + ruleText,
-			Quick: 1500, Thorough: 5000, Gen: GenStack, Check: CheckStack, Classify: ClassifyStack},
+			Rule:  "[spec -> untyped API -> Context.APIHandler, 1-10 requests per API with independent damage: missing required parameter, bad Content-Type, bad Accept, unparsable body] " + ruleText,
+			Quick: 1200, Thorough: 5000, Gen: GenStack, Check: CheckStack, Classify: ClassifyStack},
 		kit.Prop[StackCase]{ID: "C02", Name: "typed",
 			Rule:  "[spec -> own RoutableAPI -> generated-server style handler (Context.Authorize, BindValidRequest, SecurityPrincipalFrom/SecurityScopesFrom) plus Context.Authorize on the looked-up route under every explicit scheme order] " + ruleText,
-			Quick: 1200, Thorough: 4000, Gen: GenStack, Check: CheckTyped, Classify: ClassifyStack},
+			Quick: 1000, Thorough: 4000, Gen: GenStack, Check: CheckTyped, Classify: ClassifyStack},
 	}
 }
